@@ -4,10 +4,10 @@ usage: collect_seeds.py <results-file> ; results-file holds the CONFIRM/CHECK li
 import json, os, re, shutil, sys
 res = open(sys.argv[1]).read()
 conf = {}
-for m in re.finditer(r"CONFIRM (C\d+)/(\d) suite_failures=\[(.*?)\] demo_with_patch=\[(.*?)\] demo_without=\[(.*?)\]", res):
+for m in re.finditer(r"CONFIRM (\w+)/(\d) suite_failures=\[(.*?)\] demo_with_patch=\[(.*?)\] demo_without=\[(.*?)\]", res):
     conf[(m.group(1), m.group(2))] = dict(suite=m.group(3), with_patch=m.group(4), without=m.group(5))
 checks = {}
-for m in re.finditer(r"CHECK (C\d+)/(\d) on (C\d+): (.*)", res):
+for m in re.finditer(r"CHECK (\w+)/(\d) on (C\d+): (.*)", res):
     checks.setdefault((m.group(1), m.group(2)), {})[m.group(3)] = m.group(4)
 for (p, n), c in sorted(conf.items()):
     ok = c["suite"] == "" and c["with_patch"].startswith("FAIL") and c["without"].startswith("ok")
@@ -26,7 +26,7 @@ for (p, n), c in sorted(conf.items()):
         old = json.load(open(f"{dst}/meta.json"))
     out = {
         "id": f"{p}-{n}",
-        "breaks_property": p,
+        "breaks_property": meta.get("property", p),
         "summary": meta.get("summary"),
         "needs_to_manifest": meta.get("needs_to_manifest"),
         "files_changed": meta.get("files_changed"),
